@@ -45,6 +45,8 @@ def canon(v, depth=0):
   """Canonical, NaN-safe, identity-free representation."""
   if depth > 6:
     return '<deep>'
+  if type(v).__name__ == 'Poison':
+    return '<POISON>'
   if isinstance(v, (int, bool, str, bytes, type(None))):
     return repr(v)
   if isinstance(v, float):
